@@ -244,6 +244,42 @@ class Device:
 CPU = Device()
 
 
+class Storage:
+    """The flat element store behind one or more tensor views (torch.Storage)."""
+
+    def __init__(self, store, dtype):
+        self.store = store
+        self.dtype = dtype
+
+    def __len__(self):
+        return len(self.store)
+
+    def size(self):
+        return len(self.store)
+
+    def pickled(self) -> "Storage":
+        """What unpickling yields: a storage with the same elements that shares nothing with the original."""
+        return Storage(list(self.store), self.dtype)
+
+
+def rebuild_tensor_v2(storage, storage_offset, size, stride, requires_grad=False, backward_hooks=None, metadata=None):
+    """torch._utils._rebuild_tensor_v2 as used by pickling: the storage arrives as a copy; the view is offset + sum i_k stride_k."""
+    import itertools as _it
+    if not isinstance(storage, Storage):
+        raise InterpError("TypeError", "_rebuild_tensor_v2 expects a storage")
+    st = storage.pickled()
+    size = [int(n) for n in size]
+    idx = []
+    for pos in _it.product(*[range(n) for n in size]):
+        k = int(storage_offset) + sum(i * int(s_) for i, s_ in zip(pos, stride))
+        if not 0 <= k < len(st.store):
+            raise InterpError("RuntimeError", "setStorage: sizes, strides and offset are out of bounds for the storage")
+        idx.append(k)
+    t = STensor(st.store, idx, size, storage.dtype)
+    t.requires_grad = bool(requires_grad)
+    return t
+
+
 class STensor:
     __slots__ = ("store", "idx", "shape", "dtype", "requires_grad")
 
@@ -638,7 +674,8 @@ class STensor:
         return STensor.from_flat(self.flat(), self.shape, self.dtype)
 
     def contiguous(self, *a, **k) -> "STensor":
-        return self
+        # torch: the tensor itself when its elements are already densely packed in order (at any storage offset), else a packed copy
+        return self if self.is_contiguous() else self.clone()
 
     def detach(self) -> "STensor":
         return self._view(list(self.idx), self.shape)
@@ -714,6 +751,42 @@ class STensor:
 
     def data_ptr(self):
         return (id(self.store), self.idx[0] if self.idx else 0)
+
+    # ---- storage-level view (pickling: DataTensor.__reduce_ex__ / torch._utils._rebuild_tensor_v2)
+    def storage(self):
+        return Storage(self.store, self.dtype)
+
+    untyped_storage = storage
+
+    def storage_offset(self):
+        return self.idx[0] if self.idx else 0
+
+    def stride(self, dim=None):
+        """Strides (in elements) of this view of its storage; Unsupported when the view is not an affine index pattern."""
+        nd = len(self.shape)
+        strides = []
+        for d in range(nd):
+            if self.shape[d] <= 1:
+                # torch reports the stride of a contiguous layout for singleton axes
+                k = 1
+                for e in self.shape[d + 1:]:
+                    k *= max(e, 1)
+                strides.append(k)
+                continue
+            step = 1
+            for e in self.shape[d + 1:]:
+                step *= e
+            strides.append(self.idx[step] - self.idx[0])
+        base = self.idx[0] if self.idx else 0
+        import itertools as _it
+        for q, pos in enumerate(_it.product(*[range(n) for n in self.shape])):
+            if self.idx[q] != base + sum(i * st for i, st in zip(pos, strides)):
+                raise Unsupported("stride() of a view that is not an affine index pattern")
+        return tuple(strides) if dim is None else strides[dim]
+
+    def is_contiguous(self, **k):
+        base = self.idx[0] if self.idx else 0
+        return all(v == base + q for q, v in enumerate(self.idx))
 
     def new_empty(self, *shape, **k):
         return empty(*shape, dtype=k.get("dtype", self.dtype))
@@ -1110,6 +1183,19 @@ class STensor:
 
     def inverse(self):
         return inverse(self)
+
+    def unique(self, sorted=True, return_inverse=False, return_counts=False, dim=None):
+        """Distinct values in ascending order (torch sorts; decidable orderings only)."""
+        if return_inverse or return_counts or dim is not None:
+            raise Unsupported("unique(return_inverse/return_counts/dim)")
+        vals: List[Any] = []
+        for v in self.flat():
+            v = to_rat(v)
+            if not any(v.equals(w) for w in vals):
+                vals.append(v)
+        import functools as _ft
+        vals.sort(key=_ft.cmp_to_key(lambda a, b: -1 if compare("lt", a, b) else 1))
+        return STensor.from_flat(vals, [len(vals)], self.dtype)
 
     def scatter_(self, dim, index, value, **k):
         """self[..., index[...], ...] = value along ``dim`` (concrete integer index tensor; value scalar or tensor of index's shape)."""
